@@ -329,7 +329,12 @@ pub const SHARDS: usize = 8;
 /// then generated sessions.
 pub fn run(ctx: &Ctx) -> Report {
     if ctx.shard.is_none() {
-        return run_sharded(ctx, SHARDS, SHARDS);
+        // RCE_FUZZ_ONLY=1: only the campaign (used when measuring what the fuzzer finds alone)
+        let mut rep = if std::env::var_os("RCE_FUZZ_ONLY").is_some() { Report::new() } else { run_sharded(ctx, SHARDS, SHARDS) };
+        if ctx.tier == Tier::Thorough {
+            super::fuzzuci::campaign(ctx, "C15", &mut rep);
+        }
+        return rep;
     }
     let mut rep = Report::new();
     let corp = corpus::load(&ctx.verif);
@@ -392,9 +397,12 @@ pub fn run(ctx: &Ctx) -> Report {
                 }
                 sent.push(line.clone());
                 rep.eval(1);
-                if let Err(pm) = guard(|| {
+                let quiet = StderrSilence::new();
+                let r = guard(|| {
                     let _ = sess.line(&line);
-                }) {
+                });
+                drop(quiet);
+                if let Err(pm) = r {
                     return Err(Violation::new(
                         "survive",
                         &format!("survive/main-panic-inprocess/{}", panic_site(&pm)),
@@ -409,6 +417,9 @@ pub fn run(ctx: &Ctx) -> Report {
             Ok(())
         });
     }
+    // generator sessions as text with blind byte/token mutations, judged by a strict reading
+    // of the grammar (fuzzuci.rs); the thorough tier adds the coverage-guided campaign
+    super::fuzzuci::mutation_layer(ctx, "C15", ctx.tier.pick(48_000, 1_600_000) / ctx.shard_count() as u32, &mut rep);
     let cases = ctx.tier.pick(12_000, 200_000) / ctx.shard_count() as u32;
     run_prop(ctx, "c15", cases, 40, strategy(), &mut rep, |c, rep| {
         let mut lines: Vec<String> = vec![];
@@ -464,5 +475,5 @@ pub fn replay(ctx: &Ctx, case: &Value) -> Report {
 }
 
 pub const LEVEL: &str = "exploration";
-pub const RULE: &str = "sessions of 1..25 lines against the real engine binary, each line drawn from a grammar over the UCI vocabulary: the eight commands with well-formed arguments (go budgets that end by themselves), go keywords with the value dropped / duplicated / reordered / replaced by junk (negative, 1e3, 0x10, 40-digit, words, empty, non-ASCII digits), go flags in odd places, setoption with name/value in every order and multiplicity, position with unknown kind / missing 'moves' / empty or illegal or malformed move lists (FEN arguments are always valid FEN, in 6-field and in 4-field form), unknown words, blank lines, tabs, 10 kB lines, non-ASCII text; plus fixed cases: end-of-input at the start, after a line, in the middle of a line, and bytes that are not valid UTF-8. Plus an in-process layer (hook H4): token soups over the vocabulary that never start a search, fed to a session object; any panic is what would have killed the real main thread. Ending of the process sessions: stop + isready (readyok within 3 s, main thread not panicked) + quit (exit status 0 within 3 s), or end-of-input after a generated line (exit within 3 s). A search-thread panic is C09's subject and ignored here. Non-trivial = session containing at least one malformed line; distinct by (text, ending).";
+pub const RULE: &str = "sessions of 1..25 lines against the real engine binary, each line drawn from a grammar over the UCI vocabulary: the eight commands with well-formed arguments (go budgets that end by themselves), go keywords with the value dropped / duplicated / reordered / replaced by junk (negative, 1e3, 0x10, 40-digit, words, empty, non-ASCII digits), go flags in odd places, setoption with name/value in every order and multiplicity, position with unknown kind / missing 'moves' / empty or illegal or malformed move lists (FEN arguments are always valid FEN, in 6-field and in 4-field form), unknown words, blank lines, tabs, 10 kB lines, non-ASCII text; plus fixed cases: end-of-input at the start, after a line, in the middle of a line, and bytes that are not valid UTF-8. Plus an in-process layer (hook H4): token soups over the vocabulary that never start a search, fed to a session object; any panic is what would have killed the real main thread. Plus a text-mutation layer (fuzzuci.rs, in-process): generator sessions as raw text with 0..6 blind byte/token mutations, every line that does not carry an invalid FEN argument is fed (lines with a go/quit word only through the parser, hook H4b) and must not panic; the thorough tier adds a coverage-guided libFuzzer campaign (target fuzz_uci) over the same oracle. Ending of the process sessions: stop + isready (readyok within 3 s, main thread not panicked) + quit (exit status 0 within 3 s), or end-of-input after a generated line (exit within 3 s). A search-thread panic is C09's subject and ignored here. Non-trivial = session containing at least one malformed line; distinct by (text, ending).";
 pub const ASSUMPTIONS: &[&str] = &["FEN arguments are valid (the statement's assumption)", "3 s stands in for 'promptly'; 8 engine processes run concurrently"];
